@@ -16,3 +16,8 @@ impl Diagnostics {
 pub fn backend(Ghost(errors_so_far): Ghost<bool>, genv: &GlobalTypeEnv, gensym: &Gensym, core: &CoreFile) -> (r: BackendOut)
     requires !errors_so_far,
 { unimplemented!() }
+#[verifier::external_body] pub struct CoreMap { _p: u64 }                  // BTreeMap<String, CoreUnit>
+#[verifier::external_body] pub fn concat_cores(by_name: &CoreMap, order: Vec<String>) -> (r: CoreFile) { unimplemented!() }      // the loop that concatenates the Core files in link order (dropped)
+#[verifier::external_body] pub fn gensym_new() -> (r: Gensym) { unimplemented!() }
+#[verifier::external_body] pub fn topo_sort(by_name: &CoreMap) -> (r: Result<Vec<String>, CompilationError>) { unimplemented!() }
+#[verifier::external_body] pub fn merge_exports(by_name: &CoreMap, order: &Vec<String>) -> (r: (GlobalTypeEnv, Diagnostics)) { unimplemented!() }       // the export-merging loop (U-COHERE): environment + diagnostics
